@@ -12,19 +12,20 @@ Lemma C08_arms_known : arms_known locktime_arms.
 Proof. first [left; reflexivity | right; reflexivity]. Qed.
 
 (* ------------------------------------------------------------------ lock time *)
-(* locktime() = BIP370 (Model/PsetTx.v `bip370`, written from the BIP text) for every PSET outside the class F6 *)
-Theorem C08_locktime_spec : forall p, ~ known_F6 locktime_arms p -> locktime p = bip370 p.
-Proof. intros p H. apply locktime_is_bip370; [exact C08_arms_known|exact H]. Qed.
+(* locktime() = BIP370 (Model/PsetTx.v `bip370`, written from the BIP text) for every PSET: any number of inputs, any requirements, any values.
+   (Before the F6 repair the source tested the time arm first and the class `known_F6` had to be excluded; the arm list is re-read from the
+   source on every run, and `known_F6 locktime_arms p` is now unsatisfiable.) *)
+Lemma C08_not_F6 : forall p, ~ known_F6 locktime_arms p.
+Proof. intros p [E _]. vm_compute in E. discriminate E. Qed.
+Theorem C08_locktime_spec : forall p, locktime p = bip370 p.
+Proof. intros p. apply locktime_is_bip370; [exact C08_arms_known|apply C08_not_F6]. Qed.
 (* the two unreachable!() arms are unreachable: locktime() never panics, for any number of inputs and any requirements *)
 Theorem C08_locktime_total : forall p s, locktime p <> Panic s.
 Proof. intros p s. apply locktime_never_panics. exact C08_arms_known. Qed.
-(* with the height arm tested first the equality has no exception *)
-Theorem C08_locktime_spec_repaired : forall p, locktime_with arms_height_first p = bip370 p.
-Proof. intros p. apply locktime_is_bip370; [now right|]. intros [E _]. discriminate. Qed.
-(* F6: one input requiring time 600000000 and height 100: BIP370 says height 100, the code returns the time *)
+(* the former F6 witness: one input requiring time 600000000 and height 100 -> height 100 *)
 Definition f6_witness : pset :=
   mkpset empty_map [set_unk (set_unk empty_map F_req_time (Some (u32_enc 600000000))) F_req_height (Some (u32_enc 100))] [].
-Theorem C08_locktime_refuted : both_possible f6_witness = true /\ bip370 f6_witness = Val 100 /\ locktime f6_witness = Val 600000000.
+Example C08_locktime_both : both_possible f6_witness = true /\ bip370 f6_witness = Val 100 /\ locktime f6_witness = Val 100.
 Proof. vm_compute. auto. Qed.
 Example C08_locktime_nonvacuous :   (* a time-only and a both-kinds input: outside F6; the time is chosen, as BIP370 says *)
   let p := mkpset empty_map [set_unk empty_map F_req_time (Some (u32_enc 700000000));
@@ -34,29 +35,31 @@ Proof. vm_compute. auto. Qed.
 
 (* ------------------------------------------------------------------ from_tx / extract_tx *)
 (* well-formed transactions (pegin witnesses only on pegin inputs, issuance data only on issuances, non-null outputs, C01-canonical
-   output indices) come back identical, outside the classes F8a (coinbase-style index) and F8b (nonce of an unblinded output / explicit nonce) *)
-Theorem C08_rt : forall t, wf_tx t ->
-  Forall (fun i => ~ known_F8a is_pegin_exempts_coinbase i) (tx_ins t) -> Forall (fun o => ~ known_F8b o) (tx_outs t) ->
-  extract_tx (from_tx t) = Val t.
-Proof. intros. apply extract_from_tx; auto using C08_arms_known. Qed.
+   output indices incl. the coinbase index 0xffffffff) come back identical, outside the class F8b (nonce of an output that is not partially
+   blinded / explicit nonce — documented design of Output::from_txout, not repaired) *)
+Lemma C08_not_F8a : forall i, ~ known_F8a is_pegin_exempts_coinbase i.
+Proof. intros i [E _]. discriminate E. Qed.
+Theorem C08_rt : forall t, wf_tx t -> Forall (fun o => ~ known_F8b o) (tx_outs t) -> extract_tx (from_tx t) = Val t.
+Proof.
+  intros t W NB. apply extract_from_tx; auto using C08_arms_known.
+  apply Forall_forall. intros i _. apply C08_not_F8a.
+Qed.
 (* extraction reflects exactly the PSET's fields: it is the field-wise function with the BIP370 lock time *)
 Definition spec_extract (p : pset) : outcome tx :=
   obind (sanity_check p) (fun _ => obind (bip370 p) (fun lt => obind (outs_of (poutputs p)) (fun outs =>
   Val (mk_tx (tx_version_of (pglobal p)) lt (map txin_of (pinputs p)) outs)))).
-Theorem C08_extract_reflects : forall p, ~ known_F6 locktime_arms p -> extract_tx p = spec_extract p.
-Proof. intros p H. unfold extract_tx, extract_tx_with, spec_extract. now rewrite (locktime_is_bip370 _ _ C08_arms_known H). Qed.
+Theorem C08_extract_reflects : forall p, extract_tx p = spec_extract p.
+Proof. intros p. unfold extract_tx, extract_tx_with, spec_extract. now rewrite (locktime_is_bip370 _ _ C08_arms_known (C08_not_F6 p)). Qed.
 Definition coinbase_in : txin := mk_txin zero32 0xffffffff false [x51] 0xffffffff zero32 zero32 CNull CNull None None empty_witness empty_witness.
 Definition fee_out (nonce : cval) : txout := mk_txout (CExplicit (repeat x03 32)) (CExplicit (repeat x00 7 ++ [x01])) nonce [] None None.
-(* F8a *)
-Theorem C08_rt_refuted_coinbase : let t := mk_tx 2 0 [coinbase_in] [fee_out CNull] in
-  wf_tx t /\ exists t', extract_tx (from_tx t) = Val t' /\ map ti_pegin (tx_ins t') = [true] /\ map ti_pegin (tx_ins t) = [false].
+(* non-vacuity, and the former F8a witness: a coinbase-style transaction is well-formed and comes back identical *)
+Example C08_rt_coinbase : let t := mk_tx 2 0 [coinbase_in] [fee_out CNull] in wf_tx t /\ extract_tx (from_tx t) = Val t.
 Proof.
-  cbn zeta. split.
-  - split; [reflexivity|]. split; [reflexivity|]. split; [reflexivity|]. split; [reflexivity|]. split.
-    + constructor; [|constructor]. split; [reflexivity|]. split; [right; split; reflexivity|]. split; [intros _; reflexivity|].
-      intros _. repeat split; reflexivity.
-    + constructor; [|constructor]. split; discriminate.
-  - eexists. split; [vm_compute; reflexivity|]. split; reflexivity.
+  cbn zeta. split; [|vm_compute; reflexivity].
+  split; [reflexivity|]. split; [reflexivity|]. split; [reflexivity|]. split; [reflexivity|]. split.
+  - constructor; [|constructor]. split; [reflexivity|]. split; [right; split; reflexivity|]. split; [intros _; reflexivity|].
+    intros _. repeat split; reflexivity.
+  - constructor; [|constructor]. split; discriminate.
 Qed.
 (* F8b: explicit output with a confidential nonce *)
 Theorem C08_rt_refuted_nonce : let t := mk_tx 2 0 [] [fee_out (CConf (x02 :: repeat x11 32))] in
@@ -83,26 +86,29 @@ Proof.
     auto using agree_refl, Forall2_refl_agree, Forall2_upd, agree_set_unk, agree_set_kyd.
 Qed.
 (* the input fields the property names as uid-neutral (sequence, signatures, final script sig / witness, scripts, proofs; key derivations and
-   partial signatures are key-value fields, covered by the `set_kyd` clauses) — exactly one of them is currently read by unique_id(): F7 *)
+   partial signatures are key-value fields, covered by the `set_kyd` clauses): none of them is read by unique_id(), so C08_uid_invariant
+   covers every one of them (before the F7 repair final_script_sig was read) *)
 Definition property_neutral_input_fields : list field :=
   [F_sequence; F_final_script_sig; F_final_script_witness; fld "redeem_script"; fld "witness_script"; fld "tap_key_sig"; fld "tap_internal_key";
    fld "tap_merkle_root"; fld "sighash_type"; fld "blind_value_proof"; fld "blind_asset_proof"; fld "in_utxo_rangeproof";
    fld "in_issuance_blind_value_proof"; fld "in_issuance_blind_inflation_keys_proof"; F_iss_value_rangeproof; F_iss_keys_rangeproof; F_pegin_witness].
 Example C08_uid_known_class :
-  filter (fun f => mem_field f (uid_input_fields uid_cleared_txin_fields)) property_neutral_input_fields = [F_final_script_sig].
+  filter (fun f => mem_field f (uid_input_fields uid_cleared_txin_fields)) property_neutral_input_fields = [].
 Proof. vm_compute. reflexivity. Qed.
-(* F7: adding final_script_sig changes the id pre-image *)
-Theorem C08_uid_refuted :
+Example C08_uid_fields : uid_input_fields uid_cleared_txin_fields =
+  [F_prev_txid; F_prev_index; F_req_time; F_req_height; F_iss_nonce; F_iss_entropy; F_iss_amount; F_iss_comm; F_iss_keys; F_iss_keys_comm].
+Proof. vm_compute. reflexivity. Qed.
+(* the former F7 witness: adding final_script_sig (and a sequence) leaves the id pre-image unchanged *)
+Example C08_uid_final_script_sig :
   let p := mkpset (of_entries [(F_input_count, Some [x01]); (F_output_count, Some [x00])]) [empty_map] [] in
-  let q := mkpset (pglobal p) (upd_nth (pinputs p) 0 (fun m => set_unk m F_final_script_sig (Some [x51]))) [] in
-  exists t t', uid_preimage p = Val t /\ uid_preimage q = Val t' /\ t <> t'.
-Proof. cbn zeta. eexists. eexists. split; [vm_compute; reflexivity|]. split; [vm_compute; reflexivity|]. discriminate. Qed.
+  let q := mkpset (pglobal p) (upd_nth (pinputs p) 0 (fun m => set_unk (set_unk m F_final_script_sig (Some [x51])) F_sequence (Some (u32_enc 5)))) [] in
+  exists t, uid_preimage p = Val t /\ uid_preimage q = Val t.
+Proof. cbn zeta. eexists. split; vm_compute; reflexivity. Qed.
 
-Check (C08_locktime_spec : forall p, ~ known_F6 locktime_arms p -> locktime p = bip370 p).
+Check (C08_locktime_spec : forall p, locktime p = bip370 p).
 Check (C08_locktime_total : forall p s, locktime p <> Panic s).
-Check (C08_rt : forall t, wf_tx t ->
-  Forall (fun i => ~ known_F8a is_pegin_exempts_coinbase i) (tx_ins t) -> Forall (fun o => ~ known_F8b o) (tx_outs t) -> extract_tx (from_tx t) = Val t).
-Check (C08_extract_reflects : forall p, ~ known_F6 locktime_arms p -> extract_tx p = spec_extract p).
+Check (C08_rt : forall t, wf_tx t -> Forall (fun o => ~ known_F8b o) (tx_outs t) -> extract_tx (from_tx t) = Val t).
+Check (C08_extract_reflects : forall p, extract_tx p = spec_extract p).
 Check (C08_uid_depends : forall p q, pset_agree uid_cleared_txin_fields p q -> uid_preimage p = uid_preimage q).
 Print Assumptions C08_locktime_spec.
 Print Assumptions C08_locktime_total.
